@@ -18,6 +18,12 @@ CLAIMS = {
   design_ref="DESIGN.md 3 (C02)",
   note="Trusted: gocv, go/types, SMT solvers; step-recording/logging helpers and Transition.StatesBefore have trusted frame contracts; sort.SliceStable is modelled as an arbitrary permutation; SchemaRefs (relations mention defined states only) is a precondition established by Schema.Parse/verifyStates, not proved here.",
   technique=TECH),
+ "C15": dict(
+  category="other",
+  text="Deductive for the handler-local gates (min = min(Min,Max); PoolReadyEnter/Exit true exactly when ready workers >= / < min(); ForkWorkerEnter true exactly below Max) and, via the generally proved lemma group_exclusive instantiated on the extracted node schemas, for the pool-normalisation and work-status groups; the pool-status group gets a bounded reachability stand-in. Event orders and pool bounds over histories are outside contracts, hence 'other'.",
+  design_ref="DESIGN.md 3 (C15)",
+  note="Trusted: gocv, go/types, SMT solvers; readyWorkers() through a trusted pure contract; schema extraction program; bounded part labelled bounded.",
+  technique=TECH),
  "C16": dict(
   category="other",
   text="Deductive for the lookup functions of the debugger's client store (TxAtQueueTick, TxAtMachTime, HadErrSinceTx, TxIndex with cache coherence, Tx, TxParsed, FilterIndexByCursor1): each is proved to return what a linear scan would, for all record lists satisfying the stated monotonicity preconditions; sort.Search / slices.BinarySearchFunc are used via assumed contracts whose preconditions are discharged at the call sites. Record derivation, navigation, filters and export/import are not covered, hence 'other'.",
